@@ -53,7 +53,7 @@ def build(tier, seed):
         'required_classes': ['adjacent-zeros', 'leading-zero', 'sign-change-without-zero', 'first-excursion-starts-at-0',
                              'first-excursion-max-at-0', 'excursion-3-levels', 'tie-in-excursion', 'zero-valued-reported',
                              'tol-removes-something', 'same-array-sequence', 'stretched-long-record', 'constant-word-switched',
-                             'length-1-word'],
+                             'length-1-word', 'flag-as-numpy.bool_', 'flag-as-int', 'result-edited-by-caller'],
         'assumptions': ['index-valued outputs are compared exactly', 'reference: scanning loops in mcheck/refs/peaks_ref.py',
                         'switched peaks of constant series: turning points are not defined for them (C11), so only ascending order, range, one index per excursion, non-emptiness and the tolerance subsequence are demanded'],
     }
@@ -90,6 +90,14 @@ def check_word(r, w, fam, containers=('f', 'i', 'l'), tols=None, label=None):
                         z0[keep] = as_ints(got)
                     except Exception:
                         pass
+        # the flag as other booleans a caller may hold: a numpy bool (an element of a bool array, the result of a comparison) and 0 / 1
+        if n <= 6:
+            for fname, flag in (('numpy.bool_', np.bool_(keep)), ('int', int(keep))):
+                sub = dict(sub0, keep=keep, flag_type=fname)
+                ok, got = r.call('crossings', sub, pc.get_zero_crossings_array_indices, np.array(w, dtype=float), keep_adj_zeros=flag)
+                if ok:
+                    r.cls('flag-as-' + fname)
+                    r.expect_ints('crossings.exact', sub, got, want)
         for tol in tols:
             sub = dict(sub0, keep=keep, tol=tol)
             ok, got = r.call('crossings.tol', sub, pc.get_zero_crossings_array_indices, np.array(w, dtype=float),
@@ -104,6 +112,29 @@ def check_word(r, w, fam, containers=('f', 'i', 'l'), tols=None, label=None):
                         r.cls('tol-removes-something')
                 except Exception as e:
                     r.fail('crossings.tol-subsequence', sub, 'malformed result: %s' % e, observed=got)
+    # the caller post-processes the index array it was given IN PLACE (e.g. to 1-based sample numbers); the next query for an equal record
+    # still answers for the record (a result handed out from something the library keeps would come back edited)
+    if n <= 6:
+        for qname, fn_, kw_, want_ in (('crossings', pc.get_zero_crossings_array_indices, {}, ref.zero_crossings(w, False)),
+                                       ('crossings tol=0.5', pc.get_zero_crossings_array_indices, {'tol': 0.5}, None),
+                                       ('switched', pc.get_switched_peak_array_indices, {}, None),
+                                       ('switched tol=0.5', pc.get_switched_peak_array_indices, {'tol': 0.5}, None)):
+            if qname.startswith('switched') and len(set(w)) == 1:
+                continue
+            sub = dict(sub0, query=qname, sequence='query, result edited in place by the caller, same query on an equal record')
+            ok, first = r.call('result-owned-by-caller', sub, fn_, np.array(w, dtype=float), **kw_)
+            if not ok or not isinstance(first, np.ndarray) or not first.size:
+                continue
+            try:
+                keep_first = as_ints(first)
+                first += 1
+                first[...] = first[::-1].copy()
+            except Exception:
+                continue
+            ok, again = r.call('result-owned-by-caller', sub, fn_, np.array(w, dtype=float), **kw_)
+            if ok:
+                r.cls('result-edited-by-caller')
+                r.expect_ints('result-owned-by-caller', sub, again, keep_first if want_ is None else want_)
     if n <= 5:
         ok, got = r.call('crossings', dict(sub0, input='signal-object'), pc.get_zero_crossings_indices, eqsig.AccSignal(np.array(w, dtype=float), 0.01))
         if ok:
@@ -187,7 +218,7 @@ def check_word(r, w, fam, containers=('f', 'i', 'l'), tols=None, label=None):
             r.fail('switched.' + tag, sub, msg, observed=g)
         if c == 'f':
             s0 = g
-            if any(w[i] == 0 for i in g):
+            if any(0 <= i < n and w[i] == 0 for i in g):
                 r.cls('zero-valued-reported')
     if n <= 5 and s0 is not None:
         for inp, arg in (('signal-object', eqsig.AccSignal(np.array(w, dtype=float), 0.01)), ('array-via-wrapper', np.array(w, dtype=float))):
